@@ -37,6 +37,17 @@ def live_invariant(d, op):
         return
     blotter = m.blotter
     orders = list(blotter)
+    # shadow of every order object this framework instance has had in the market's blotter: none ever leaves it and
+    # the lookups keep returning the very object
+    seen = d.__dict__.setdefault("_seen", {}).setdefault(id(d.lab), {})
+    for o in orders:
+        seen.setdefault(o.id, o)
+    for oid, o in seen.items():
+        if blotter._orders.get(oid) is not o:
+            raise Violation("order-left-the-blotter", ("live", "missing" if oid not in blotter._orders else "other-object"),
+                            "order %s (bet %s, %s) was in the blotter earlier and is %s after %s" % (
+                                oid, o.bet_id, o.status.name if o.status else None,
+                                "missing" if oid not in blotter._orders else "another object", op["op"]), d.c)
     if len({id(o) for o in orders}) != len(orders):
         raise Violation("blotter-membership", ("live",), "duplicate order objects in the blotter", d.c)
     live = list(blotter.live_orders)
